@@ -166,9 +166,9 @@ impl Property for C13 {
         }
         ctx.subspace(&format!("fixed family of trees of depth <= {d} x 11 option vectors"), total, true);
         let strat = (ds::arb_typed(4), 0u32..(1 << 14)).prop_map(|((ty, val), ob)| Case { ty, val, opts: SerOpts::from_bits(ob) });
-        ctx.run_strategy("random-trees", 1, ctx.tier.pick(40_000, 600_000), &strat, nontrivial);
+        ctx.run_strategy("random-trees", 1, ctx.tier.pick(150_000, 1_500_000), &strat, nontrivial);
         let strat = (ds::arb_typed(5),).prop_map(|((ty, val),)| Case { ty, val, opts: SerOpts::default() });
-        ctx.run_strategy("random-trees-default-options", 2, ctx.tier.pick(40_000, 600_000), &strat, nontrivial);
+        ctx.run_strategy("random-trees-default-options", 2, ctx.tier.pick(150_000, 1_500_000), &strat, nontrivial);
     }
 }
 
